@@ -131,8 +131,8 @@ theorem kwFallbackO_erase (C : CfgO) (e : End) (x : EctxO) (env : Env) (s : S) (
 theorem withSelfO_erase (x : EctxO) (r : FnResO) : (withSelfO x r).erase = withSelf x.x r.erase := by
   cases r <;> rfl
 
-theorem stepWrappedGraphO_erase (e : End) (x : EctxO) (env : Env) (s : S) (a : ArgO) :
-    (stepWrappedGraphO e x env s a).erase = stepWrappedGraph e x.x env a.erase := by
+theorem stepWrappedGraphO_erase (dbl : Bool) (e : End) (x : EctxO) (env : Env) (s : S) (a : ArgO) :
+    (stepWrappedGraphO dbl e x env s a).erase = stepWrappedGraph e x.x env a.erase := by
   cases a with
   | fail => rfl
   | rune c rest =>
@@ -230,7 +230,7 @@ theorem stepStatementRuneO_erase (C : CfgO) (e : End) (x : EctxO) (env : Env) (s
       · split
         · exact stepKwSpaceO_erase C e x env s _ _ c rest
         · split
-          · exact stepWrappedGraphO_erase e x env s (.rune c rest)
+          · exact stepWrappedGraphO_erase C.dbl e x env s (.rune c rest)
           · exact stepSubjectStartO_erase C e x env s c rest
 
 theorem stepCollectionO_erase (x : EctxO) (env : Env) (s : S) (c : RP) (rest : List RP) (o : T) (org : Rg) :
@@ -570,7 +570,7 @@ theorem stepFnO_erase (C : CfgO) (e : End) (k : Cont) (r : Rg) (x : EctxO) (env 
   | graphAnonClose =>
     simp only [stepFnO, stepFn, orNul_erase]
     split <;> rfl
-  | wrappedGraph => exact stepWrappedGraphO_erase e x env s a
+  | wrappedGraph => exact stepWrappedGraphO_erase C.dbl e x env s a
   | wrappedGraphEnd =>
     cases a with
     | fail => rfl
